@@ -682,3 +682,88 @@ Definition last_with (k : pv) (objs : list elem) : option elem :=
   fold_left (fun acc x => if pv_eqb (mget k_id x) k then Some x else acc) objs None.
 (* elements whose metadata is a dict (no repeated key) *)
 Definition meta_ok (x : elem) : bool := nodup_keys (emeta x).
+
+(* ---------------------------------------------------------------- round 7: collection kinds and the PLACE of a key *)
+(* The three collections that hand their elements to the shared helpers, and where those look a str key up:
+   FeatureList / BioBasket pass attr='meta' (fts.py:696,802, seq.py:1084,1103; _filter's default attr='meta', fts.py:829,
+   seq.py:1129): getattr(getattr(obj, 'meta'), key, None).  BioMatchList.groupby passes no attr (cane.py:157):
+   getattr(obj, key, None) - an instance attribute of the BioMatch (rf, seqid, lenseq, whatever the caller set), else an
+   attribute of the wrapped re.Match (BioMatch.__getattr__, cane.py:133-134), else None.  A callable key is applied to the object
+   itself, whatever the collection (cane.py:19-23).  The getter is built anew by every call (cane.py:19-24): no state. *)
+Inductive ckind := CFl | CBb | CMl.                 (* FeatureList | BioBasket | BioMatchList *)
+Inductive xop := XSort | XGroup | XFilter.
+(* an object with BOTH places: xe = the Feature / BioSeq (metadata, locations, residues; for a BioMatch: eidx only, plus the
+   .meta attribute a caller may have set), xinst = instance attributes besides meta, xwrap = attributes of the wrapped re.Match *)
+Record xobj := mkX { xe : elem; xinst : list (str * pv); xwrap : list (str * pv) }.
+Inductive place := PlMeta (s : str) | PlAttr (s : str) | PlLen | PlCall (k : key).
+Definition attr_is_meta (K : ckind) : bool := match K with CMl => false | _ => true end.
+(* BioMatchList has groupby (and its alias d) only; its sort is list.sort of UserList, it has no filter *)
+Definition supported (K : ckind) (op : xop) : bool := match K, op with CMl, XGroup => true | CMl, _ => false | _, _ => true end.
+(* the decision table: key of sort / groupby *)
+Definition place_of_key (K : ckind) (k : key) : place :=
+  match k with
+  | KMeta s => if attr_is_meta K then PlMeta s else PlAttr s
+  | _ => PlCall k
+  end.
+(* ... and the key part of a filter condition key_op=value (getv, cane.py:95-97; attr is always 'meta') *)
+Definition place_of_cond (s : str) : place := if str_eqb s k_len then PlLen else PlMeta s.
+Definition opt_or {A} (a : option A) (b : option A) : option A := match a with Some _ => a | None => b end.
+(* getattr(obj, s, None): instance attribute, else attribute of the wrapped match, else None *)
+Definition getattr_none (s : str) (o : xobj) : pv :=
+  match opt_or (assoc s (xinst o)) (assoc s (xwrap o)) with Some v => v | None => PNone end.
+(* what the helpers see of an object: its metadata (attr='meta') or the finite map of its attributes (no attr) *)
+Definition xview (K : ckind) (o : xobj) : elem :=
+  if attr_is_meta K then xe o else mkE (eidx (xe o)) false [] [] (xinst o ++ xwrap o) false.
+(* the value at a place; the callables of the harness read where the collection's str keys live:
+   o.meta.get(k, v) on a Feature / BioSeq, getattr(o, k, v) on a BioMatch *)
+Definition place_val (K : ckind) (p : place) (o : xobj) : pv :=
+  match p with
+  | PlMeta s => mget s (xe o)
+  | PlAttr s => getattr_none s o
+  | PlLen => PInt (elen (xe o))
+  | PlCall k => keyval k (xview K o)
+  end.
+Definition xkeyval (K : ckind) (k : key) (o : xobj) : pv := place_val K (place_of_key K k) o.
+(* the three helpers on a collection of kind K: the shared helper run on what it sees of each object *)
+Definition x_groupby (K : ckind) (ks : keyspec) (objs : list xobj) : res gtree := m_groupby ks (map (xview K) objs).
+Definition x_sort (K : ckind) (ks : keyspec) (reverse : bool) (objs : list xobj) : list elem := m_sort ks reverse (map (xview K) objs).
+Definition x_filter (K : ckind) (conds : list cond) (objs : list xobj) : res (list elem) := m_filter conds (map (xview K) objs).
+
+(* histories across collection kinds: every step carries its own operands (the model is a pure function of them) *)
+Inductive xstep :=
+| XsGroup (K : ckind) (objs : list xobj) (ks : keyspec)
+| XsSort (K : ckind) (objs : list xobj) (ks : keyspec) (reverse : bool)
+| XsFilter (K : ckind) (objs : list xobj) (conds : list cond).
+Definition xstep_req (s : xstep) : req :=
+  match s with
+  | XsGroup K objs ks => RGroup (map (xview K) objs) ks
+  | XsSort K objs ks r => RSort (map (xview K) objs) ks r
+  | XsFilter K objs conds => RFilter false (map (xview K) objs) conds
+  end.
+(* attribute names of BioMatch / re.Match whose values are no None/int/str (methods, the pattern, the text): outside the domain *)
+Definition match_nondata_names : list str :=
+  [bs "span"%bs; bs "start"%bs; bs "end"%bs; bs "group"%bs; bs "groups"%bs; bs "groupdict"%bs; bs "expand"%bs; bs "re"%bs;
+   bs "string"%bs; bs "regs"%bs; bs "meta"%bs].
+Definition attr_name_ok (s : str) : bool := key_name_ok s && negb (existsb (str_eqb s) match_nondata_names).
+Definition attrs_ok (m : list (str * pv)) : bool := nodup_keys m && forallb (fun kvp => attr_name_ok (fst kvp)) m.
+Definition xobj_ok (K : ckind) (o : xobj) : bool :=
+  attrs_ok (xinst o) && attrs_ok (xwrap o) &&
+  match K with CFl => elem_ok true (xe o) | CBb => elem_ok false (xe o) | CMl => nodup_keys (emeta (xe o)) end.
+(* keys a BioMatchList can be grouped by inside the domain: attribute names and the callables that read attributes *)
+Definition ml_key_ok (k : key) : bool :=
+  match k with
+  | KMeta s | KLowerMeta s | KMetaOr s _ => attr_name_ok s
+  | KConst => true
+  | _ => false
+  end.
+Definition xstep_wf (s : xstep) : bool :=
+  match s with
+  | XsGroup CMl objs ks =>
+      forallb (xobj_ok CMl) objs && forallb ml_key_ok (keyfuncs ks) && forallb (key_dom (map (xview CMl) objs)) (keyfuncs ks)
+      && is_ok (x_groupby CMl ks objs)
+  | XsGroup K objs _ => forallb (xobj_ok K) objs && wf_C16 (xstep_req s)
+  | XsSort K objs _ _ => supported K XSort && forallb (xobj_ok K) objs && wf_C16 (xstep_req s)
+  | XsFilter K objs _ => supported K XFilter && forallb (xobj_ok K) objs && wf_C16 (xstep_req s)
+  end.
+Definition run_C16_xhist (steps : list xstep) : val :=
+  VL [VB (forallb xstep_wf steps); VL (map (fun s => result (xstep_req s)) steps)].
